@@ -36,6 +36,16 @@ def c02_case(draw):
     case = draw(gen.case(max_nodes=7, typed_first=1.01, rare=False))
     if case["data"]["t"] in M.COLLECTIONS and not case["data"]["v"]:
         case["data"]["v"] = [draw(st.sampled_from(gen.FLOATS))]
+    if draw(st.sampled_from([False] * 5 + [True])):
+        # two hazard shapes on ONE key: the key is deleted (or renamed away), and a later node both requires and re-creates it
+        k = draw(st.sampled_from(["a", "b", "k1", "out"]))
+        first = draw(st.sampled_from([f"delete:{k}", f"rename:{k}:c"]))
+        second = draw(st.sampled_from([f'template:"{{{k}}}_x":{k}', f"rename:{k}:{k}", f'template:"{{{k}}}{{factor}}":{k}']))
+        i = draw(st.integers(0, len(case["nodes"])))
+        j = draw(st.integers(i, len(case["nodes"])))
+        case["nodes"].insert(j, {"p": second})
+        case["nodes"].insert(i, {"p": first})
+        case["hazard_pair"] = True
     bank = {k: draw(gen.value_for(k, bad=0)) for k in gen.ALL_KEYS + ["kind", "opts"]}
     case["bank"] = bank
     if draw(st.integers(0, 9)) == 0:
